@@ -216,7 +216,18 @@ def obligations_for(modules):
         raise InfraError("theorems with unexpected axioms / missing from audit:\n" + "\n".join(problems))
     if obl == 0:
         raise InfraError("no theorems found for modules %s" % modules)
+    if parse_args(sys.argv[1:])[0] == "thorough":
+        # thorough tier: the compiled proofs of these modules (and everything they import from this project) are
+        # re-checked by the toolchain's independent checker
+        for mod in modules:
+            rc, out = _run(["lake", "env", "leanchecker", "Pyvsc.Props.%s" % mod], cwd=LEAN, timeout=1800)
+            if rc != 0:
+                raise InfraError("leanchecker rejected Pyvsc.Props.%s:\n%s" % (mod, out[-2000:]))
+            RECHECKED.append("Pyvsc.Props.%s" % mod)
     return obl, dis, items
+
+
+RECHECKED = []
 
 
 class Drv:
@@ -360,6 +371,8 @@ class Check:
         cov["oracle_failures"] = len(self.oracle_failures)
         cov["known_findings_replayed"] = sorted(known_seen)
         cov["repo"] = REPO
+        if RECHECKED:
+            cov["leanchecker_ok"] = list(RECHECKED)
         if extra_cov:
             cov.update(extra_cov)
         ev = {"property_id": self.prop, "tier": self.tier, "seed": self.seed, "level": "proof",
